@@ -308,7 +308,7 @@ def split_a_output(out):
 
 
 # ------------------------------------------------------------------------------------------ real nanoc, verbose
-def run_nanoc_verbose(b, src_path, out_path, workdir, timeout=120):
+def run_nanoc_verbose(b, src_path, out_path, workdir, timeout=40):
     env = dict(os.environ, TMPDIR=workdir)
     rc, o, e = langlib.run_cmd([b.bin('nanoc'), src_path, '-o', out_path, '--verbose'], timeout, env)
     return rc, o, e
@@ -489,6 +489,7 @@ def build_cases(ck, nv_lang, seeds, cfg, modes, tag, drop_shadow_prob=0.0, genf=
     """Generates programs, asks the reference semantics for the values the shadow assertions expect, builds S/A/sprog.
     Returns list of Case."""
     pre = []
+    cfg = cfg or progen.Cfg()
     for i, seed in enumerate(seeds):
         g, p = genf(seed) if genf else gen_program(seed, cfg)
         rng = random.Random(seed ^ 0x5bd1e995)
@@ -585,7 +586,7 @@ def run_real(b, cases, tag, want_native=True):
             d = os.path.join(wd, h); os.makedirs(d, exist_ok=True)
             sp = os.path.join(d, 's.nano'); open(sp, 'w').write(c.s_src)
             outp = os.path.join(d, 's.out')
-            rc, o, e = run_nanoc_verbose(b, sp, outp, d)
+            rc, o, e = run_nanoc_verbose(b, sp, outp, d, getattr(c, 'timeout', 40))
             c.r_rc, c.r_stdout, c.r_stderr = rc, o, e.decode('utf-8', 'replace')
             c.r_binary = os.path.exists(outp)
             c.r_verbose = parse_verbose(o, c.order_names)
